@@ -161,6 +161,42 @@ reg(Composite('belt.wblE', _impl_wbl('E'), lambda c: {'ret': 0, 'buf': R.wbl_enc
 reg(Composite('belt.wblD', _impl_wbl('D'), lambda c: {'ret': 0, 'buf': R.wbl_decr(c['key'], c['buf'])}, group='belt'))
 reg(Composite('belt.wblD2', _impl_wbl('D2'), lambda c: {'ret': 0, 'buf': R.wbl_decr(c['key'], c['buf'])}, group='belt'))
 
+def _impl_wblR(lib, c, A, fill):
+    """continued encryption: Start, then 'calls' x StepR on the same buffer (round counter runs on: 1..2n, 2n+1..4n, ...);
+    a StepE in between restarts the counter at 1"""
+    st = A.buf(lib.sz('beltWBL_keep'), fill)
+    lib.call('beltWBLStart', st, A.buf(c['key']), len(c['key']))
+    b = A.buf(c['buf']); outs = []
+    for op in c['ops']:
+        lib.call('beltWBLStep' + op, b, len(c['buf']), st)
+        outs.append(b.get())
+    return {'ret': 0, 'bufs': outs}
+def _wblR_ref(c):
+    r = c['buf']; n = (len(r) + 15) // 16; rnd = 1; outs = []
+    for op in c['ops']:
+        if op == 'E':
+            rnd = 1
+        r = R.wbl_encr(c['key'], r, rnd); rnd += 2 * n
+        outs.append(r)
+    return {'ret': 0, 'bufs': outs}
+reg(Composite('belt.wblR', _impl_wblR, _wblR_ref, group='belt'))
+
+def _impl_block23(name):
+    """beltBlockEncr2/Decr2 (u32[4] block) and Encr3/Decr3 (four separate u32 words) -- little-endian platform: words = octets"""
+    def impl(lib, c, A, fill):
+        k32 = A.buf(32, fill)
+        lib.call('beltKeyExpand2', k32, A.buf(c['key']), len(c['key']))
+        if name.endswith('2'):
+            b = A.buf(c['block'])
+            lib.call(name, b, k32)
+            return {'ret': 0, 'block': b.get()}
+        w = [A.buf(c['block'][4 * i:4 * i + 4]) for i in range(4)]
+        lib.call(name, w[0], w[1], w[2], w[3], k32)
+        return {'ret': 0, 'block': b''.join(x.get() for x in w)}
+    return impl
+for _nm, _f in (('beltBlockEncr2', R.block_encr), ('beltBlockDecr2', R.block_decr), ('beltBlockEncr3', R.block_encr), ('beltBlockDecr3', R.block_decr)):
+    reg(Composite('belt.' + _nm[4:5].lower() + _nm[5:], _impl_block23(_nm), (lambda f: lambda c: {'ret': 0, 'block': f(c['key'], c['block'])})(_f), group='belt'))
+
 def _impl_compr(lib, c, A, fill):
     h = A.buf(c['h']); x = A.buf(c['x']); s = A.buf(c.get('s', bytes(16)))
     stack = A.buf(lib.sz('beltCompr_deep'), fill)
@@ -256,6 +292,9 @@ def gen_cases(tier):
             out.append(('belt.blockEncr', dict(key=key, block=b)))
             out.append(('belt.blockDecr', dict(key=key, block=b)))
         out.append(('belt.keyExpand', dict(key=key)))
+        for b in blocks[:3] + blocks[3::7]:
+            for nm in ('belt.blockEncr2', 'belt.blockDecr2', 'belt.blockEncr3', 'belt.blockDecr3'):
+                out.append((nm, dict(key=key, block=b)))
     for key in ks[:3] if tier == 'quick' else ks:
         for kd in kinds:
             for n in lengths(16, 80, tier):
@@ -273,6 +312,9 @@ def gen_cases(tier):
                 for f in ('belt.wblE', 'belt.wblD'):
                     out.append((f, dict(buf=data(n, kd), key=key)))
                 out.append(('belt.wblD2', dict(buf=data(n, kd), key=key)))
+                if n % 16 in (0, 1, 15) and kd == kinds[0]:
+                    for ops in (['R'], ['R', 'R'], ['R', 'R', 'R'], ['E', 'R'], ['R', 'E', 'R']):
+                        out.append(('belt.wblR', dict(buf=data(n, kd), key=key, ops=ops)))
             for n in range(16, 97, 16):
                 for f in ('beltBDEEncr', 'beltBDEDecr'):
                     out.append((f, dict(src=data(n, kd), key=key, iv=ivs[0])))
